@@ -361,7 +361,7 @@ class SymEval:
                     return ev(expr, en)
                 (v, n), rest = vs[0], vs[1:]
                 if not isinstance(v, sympy.Symbol):
-                    raise Uninterpretable(f"derivative with respect to {type(v).__name__}")
+                    raise Uninterpretable("derivative with respect to a non-symbol")
                 tok = self.token_of(v)
                 return functional("deriv", tok, int(n), lambda x: chain(expr, rest, en.bind(tok, x)))
             return chain(e.expr, [(v, int(n)) for v, n in e.variable_count], env)
